@@ -65,6 +65,20 @@ def _setup() -> None:
     from sympy.physics.units.definitions.dimension_definitions import angle as _angle
     sym("sA", _angle, dims.ONE, U.radian)
 
+    # wrapped operands used as leaves: they carry the dimension inferred for their argument
+    from symplyphysics.core.operations.symbolic import (Average, FiniteDifference,
+        ExactDifferential, InexactDifferential)
+    for name, cls, arg, dv, unit in (("avL", Average, sL, dims.L, U.meter),
+        ("dT", FiniteDifference, sT, dims.T, U.second),
+        ("dM", ExactDifferential, L["sM"], dims.M, U.kilogram),
+        ("dW", InexactDifferential, sL * L["sM"], dims.L * dims.M, U.meter * U.kilogram)):
+        w = cls(arg)
+        L[name] = w
+        _DIM[w] = dv
+        _NAME[w] = name
+        _NUM[w] = next(lat)
+        _QSUB[w] = Quantity(_NUM[w] * unit)
+
     def q(name: str, expr: Any, **kw: Any) -> None:
         o = Quantity(expr, **kw)
         L[name] = o
@@ -98,8 +112,9 @@ def _setup() -> None:
 
 
 FULL = ["2", "-3", "1/2", "0", "oo", "nan", "sL", "sT", "sM", "s1", "sV", "Q3m", "Q0len",
-    "Q2s", "Q5", "Qz", "fL(sT)", "g1(s1)", "D1", "D2"]
-MEDIUM = ["2", "0", "oo", "sL", "sT", "s1", "sV", "Q3m", "Q0len", "Q2s", "Qz", "fL(sT)", "D1"]
+    "Q2s", "Q5", "Qz", "fL(sT)", "g1(s1)", "D1", "D2", "avL", "dT", "dM", "dW"]
+MEDIUM = ["2", "0", "oo", "sL", "sT", "s1", "sV", "Q3m", "Q0len", "Q2s", "Qz", "fL(sT)", "D1",
+    "avL", "dT"]
 REDUCED = ["2", "0", "sL", "sT", "s1", "Q3m", "Q0len", "D1"]
 EXPS = ["2", "-3", "1/2", "0", "s1", "sL", "Q5", "Q2s"]
 COMM = ("Add", "Mul", "Min", "Max")
